@@ -1,12 +1,476 @@
-/-! Model for property C19 (core-only: no Mathlib import, so the driver links). -/
+import OnetVerif.Model.Util
+/-! Model for property C19 — simulation statistics (`simul/monitor/stats.go`,
+`bucket_stats.go`, `monitor.go`), as repaired by the `fix:` commits (reset of the accumulators on
+every `Collect`, first value initialises `max`, `AverageStats` unlocks, `BucketStats.Set` is
+all-or-nothing).
+
+Core-only (no Mathlib): the driver instantiates the number type with `Float` (IEEE double, same
+operation order as the Go code, so the comparison with `math.Float64bits` is bit-exact); the
+theorems in `Props/C19.lean` instantiate it with an arbitrary linearly ordered field (ℚ, ℝ, …).
+
+No outlier filter is configured (premise of the property): `Value.Filter` is the identity. -/
 namespace C19
 
+/-- the arithmetic the accumulator code uses, in the order the Go code uses it -/
+class Num (α : Type) where
+  add : α → α → α
+  sub : α → α → α
+  mul : α → α → α
+  div : α → α → α
+  ofNat : Nat → α
+  lt : α → α → Bool
+  sqrt : α → α
+
+/-- order on measure names (`sort.Strings` on `Stats.keys`) -/
+class KeyOrd (κ : Type) where
+  lt : κ → κ → Bool
+
+section generic
+variable {α κ : Type}
+
+/-- `type Value struct` (stats.go:346-365): the carried accumulators and the store -/
+structure Value (α : Type) where
+  n : Nat
+  min : α
+  max : α
+  sum : α
+  oldM : α
+  newM : α
+  oldS : α
+  newS : α
+  dev : α
+  store : List α
+
+variable [Num α]
+
+/-- `float64` zero -/
+def zero : α := Num.ofNat 0
+
+/-- `NewValue(name)` / `new(Value)` -/
+def Value.new : Value α :=
+  { n := 0, min := zero, max := zero, sum := zero, oldM := zero, newM := zero, oldS := zero,
+    newS := zero, dev := zero, store := [] }
+
+/-- `Value.Store` (stats.go:377-381) -/
+def Value.put (t : Value α) (x : α) : Value α := { t with store := t.store ++ [x] }
+
+/-- the reset at the head of `Value.Collect` (the `fix:`; before it only `sum` was cleared) -/
+def Value.reset (t : Value α) : Value α := { (Value.new : Value α) with store := t.store }
+
+/-- one iteration of the loop of `Value.Collect` (stats.go:397-420) -/
+def Value.step (t : Value α) (x : α) : Value α :=
+  let mn := if Num.lt x t.min || t.n == 0 then x else t.min      -- `t.min > newTime || t.n == 0`
+  let mx := if Num.lt t.max x || t.n == 0 then x else t.max      -- `t.max < newTime || t.n == 0`
+  let n := t.n + 1                                               -- `t.n++`
+  if n == 1 then
+    { t with n := n, min := mn, max := mx, oldM := x, newM := x, oldS := zero,
+             dev := Num.sqrt (Num.div t.newS (Num.ofNat (n - 1))), sum := Num.add t.sum x }
+  else
+    let newM := Num.add t.oldM (Num.div (Num.sub x t.oldM) (Num.ofNat n))
+    let newS := Num.add t.oldS (Num.mul (Num.sub x t.oldM) (Num.sub x newM))
+    { t with n := n, min := mn, max := mx, oldM := newM, newM := newM, oldS := newS, newS := newS,
+             dev := Num.sqrt (Num.div newS (Num.ofNat (n - 1))), sum := Num.add t.sum x }
+
+/-- `Value.Collect` -/
+def Value.collect (t : Value α) : Value α := t.store.foldl Value.step t.reset
+
+/-- `Value.Values()`: min, max, avg, sum, dev — the five CSV columns of a measure -/
+def Value.values (t : Value α) : List α := [t.min, t.max, t.newM, t.sum, t.dev]
+
+/-- `AverageValue` (stats.go:430-448) on values of one name: only the stores are joined -/
+def averageValue (vs : List (Value α)) : Value α :=
+  { (Value.new : Value α) with store := vs.flatMap (·.store) }
+
+/-- `type Stats struct`: the static fields in `staticKeys` order, and `values` + `keys` as one
+association list kept in key order (`keys` is re-sorted after every new name, stats.go:66-69) -/
+structure Stats (κ α : Type) where
+  static : List (String × String) := []
+  vals : List (κ × Value α) := []
+
+variable [KeyOrd κ] [DecidableEq κ]
+
+/-- store `x` under `k`; a new name goes to its place in key order -/
+def upsert (k : κ) (x : α) : List (κ × Value α) → List (κ × Value α)
+  | [] => [(k, (Value.new : Value α).put x)]
+  | (k', v) :: rest =>
+    if k = k' then (k', v.put x) :: rest
+    else if KeyOrd.lt k k' then (k, (Value.new : Value α).put x) :: (k', v) :: rest
+    else (k', v) :: upsert k x rest
+
+/-- `Stats.Update` (stats.go:56-71) -/
+def Stats.update (s : Stats κ α) (k : κ) (x : α) : Stats κ α := { s with vals := upsert k x s.vals }
+
+/-- `Stats.Value(name)` -/
+def Stats.value (s : Stats κ α) (k : κ) : Option (Value α) := (s.vals.find? (·.1 = k)).map (·.2)
+
+/-- `Stats.Collect` (stats.go:277-285), no filter configured -/
+def Stats.collect (s : Stats κ α) : Stats κ α :=
+  { s with vals := s.vals.map fun kv => (kv.1, kv.2.collect) }
+
+/-- the numeric part of the line `WriteValues` writes: per measure, in key order, its five columns -/
+def Stats.row (s : Stats κ α) : List (κ × List α) := s.vals.map fun kv => (kv.1, kv.2.values)
+
+/-- `AverageStats` (stats.go:167-199): static fields and keys of the first result set; per key
+the stores of all result sets that have it, joined in the order of the result sets -/
+def averageStats : List (Stats κ α) → Stats κ α
+  | [] => {}
+  | s0 :: rest =>
+    { static := s0.static,
+      vals := s0.vals.map fun kv => (kv.1, averageValue ((s0 :: rest).filterMap (·.value kv.1))) }
+
+/-- `bucketRule` (bucket_stats.go:10-16) -/
+structure Rule where
+  low : Int
+  high : Int
+  deriving DecidableEq, Repr
+
+/-- `bucketRule.Match` -/
+def Rule.matches (r : Rule) (i : Int) : Bool := decide (r.low ≤ i) && decide (i < r.high)
+
+/-- `bucketRules.Match` (bucket_stats.go:51-65) -/
+def rulesMatch (rr : List Rule) (host : Int) : Bool :=
+  if host < 0 then false else rr.any (·.matches host)
+
+/-- one entry of `BucketStats.rules` / `BucketStats.buckets` -/
+structure Bucket (κ α : Type) where
+  idx : Int
+  rules : List Rule
+  stats : Stats κ α
+
+abbrev BucketStats (κ α : Type) := List (Bucket κ α)
+
+/-- `BucketStats.Set` after all rules parsed (a parse error changes nothing) -/
+def BucketStats.set (bs : BucketStats κ α) (idx : Int) (rules : List Rule) (st : Stats κ α) :
+    BucketStats κ α :=
+  { idx := idx, rules := rules, stats := st } :: bs.filter (·.idx ≠ idx)
+
+/-- a measure as it arrives: name, value, host index -/
+structure Measure (κ α : Type) where
+  name : κ
+  val : α
+  host : Int
+
+/-- `BucketStats.Update` (bucket_stats.go:108-116) -/
+def BucketStats.update (bs : BucketStats κ α) (m : Measure κ α) : BucketStats κ α :=
+  bs.map fun b => if rulesMatch b.rules m.host then { b with stats := b.stats.update m.name m.val } else b
+
+/-- `BucketStats.Get` (bucket_stats.go:98-106): collects the bucket it returns -/
+def BucketStats.get (bs : BucketStats κ α) (idx : Int) : BucketStats κ α × Option (Stats κ α) :=
+  let bs' := bs.map fun b => if b.idx = idx then { b with stats := b.stats.collect } else b
+  (bs', (bs'.find? (·.idx = idx)).map (·.stats))
+
+/-- the part of `Monitor` the statistics live in -/
+structure Monitor (κ α : Type) where
+  global : Stats κ α
+  buckets : BucketStats κ α := []
+
+/-- `Monitor.update` (monitor.go:212-219) -/
+def Monitor.update (m : Monitor κ α) (x : Measure κ α) : Monitor κ α :=
+  { global := m.global.update x.name x.val, buckets := m.buckets.update x }
+
+/-- the read-out operations that may precede the final write (print, collect, write header,
+write values); all but the header trigger `Collect` -/
+inductive Readout where
+  | collect | string | header | values
+  deriving DecidableEq, Repr
+
+def Stats.readout (s : Stats κ α) : Readout → Stats κ α
+  | .header => s
+  | _ => s.collect
+
+end generic
+
+/-! ### Parsing of bucket rules (`newBucketRule`, `strconv.Atoi`), on byte strings -/
+
+/-- `strconv.Atoi` on a byte string: one optional sign, at least one digit, digits only, and
+the value must fit `int` (64 bit) -/
+def atoi (bs : List Nat) : Option Int :=
+  let (neg, ds) : Bool × List Nat :=
+    match bs with
+    | 43 :: r => (false, r)
+    | 45 :: r => (true, r)
+    | r => (false, r)
+  if ds.isEmpty || !ds.all (fun c => decide (48 ≤ c) && decide (c ≤ 57)) then none
+  else
+    let v : Nat := ds.foldl (fun a c => a * 10 + (c - 48)) 0
+    if neg then (if v ≤ 2 ^ 63 then some (-(v : Int)) else none)
+    else (if v < 2 ^ 63 then some (v : Int) else none)
+
+/-- `strings.Split(r, ":")` -/
+def splitColon : List Nat → List (List Nat)
+  | [] => [[]]
+  | c :: r =>
+    match splitColon r with
+    | [] => [[c]]     -- unreachable: the result is never empty
+    | h :: t => if c = 58 then [] :: h :: t else (c :: h) :: t
+
+/-- `newBucketRule` (bucket_stats.go:18-41) -/
+def parseRule (bs : List Nat) : Option Rule :=
+  match splitColon bs with
+  | [a, b] =>
+    match atoi a, atoi b with
+    | some lo, some hi => some { low := lo, high := hi }
+    | _, _ => none
+  | _ => none
+
+/-! ### Line-protocol driver on `Float` -/
 namespace Drv
-/-- line-protocol driver state for C19 -/
-abbrev State := Unit
-def init : State := ()
-/-- one line in (tokens after the property prefix), new state and one line out -/
-def step (s : State) (_toks : List String) : State × String := (s, "bad-op")
+
+instance : Num Float where
+  add := Float.add
+  sub := Float.sub
+  mul := Float.mul
+  div := Float.div
+  ofNat := Float.ofNat
+  lt := fun a b => a < b
+  sqrt := Float.sqrt
+
+instance : KeyOrd String where
+  lt := fun a b => decide (a < b)
+
+abbrev St := Stats String Float
+
+def hex16 (n : Nat) : String :=
+  String.ofList ((List.range 16).reverse.map fun i => Util.hexChar (n / 16 ^ i % 16))
+
+/-- canonical rendering of a double: `nan` or the 16 hex digits of its bit pattern -/
+def showF (x : Float) : String := if x.isNaN then "nan" else hex16 x.toBits.toNat
+
+def parseHexNat (s : String) : Option Nat :=
+  if s.isEmpty then none else
+  s.toList.foldl (fun a c => do let v ← a; let d ← Util.hexDigit c; pure (v * 16 + d)) (some 0)
+
+def parseF (s : String) : Option Float :=
+  if s.length ≠ 16 then none else (parseHexNat s).map fun n => Float.ofBits (UInt64.ofNat n)
+
+def parseInt (s : String) : Option Int :=
+  match s.toList with
+  | '-' :: r => if r.isEmpty then none else (String.ofList r).toNat?.map fun n => -(n : Int)
+  | _ => s.toNat?.map fun n => (n : Int)
+
+/-- the nearest double (ties to even) of `num / den` for `num, den > 0` and a quotient in the
+normal range -/
+def nearest (num den : Nat) : Float :=
+  if num = 0 then 0.0 else
+  -- e with 2^52 ≤ num / (den * 2^e) < 2^53
+  let e0 : Int := (num.log2 : Int) - (den.log2 : Int) - 52
+  let quot (e : Int) : Nat × Nat × Nat :=      -- quotient, remainder, divisor
+    if e ≥ 0 then (num / (den * 2 ^ e.toNat), num % (den * 2 ^ e.toNat), den * 2 ^ e.toNat)
+    else (num * 2 ^ (-e).toNat / den, num * 2 ^ (-e).toNat % den, den)
+  let e : Int :=
+    if (quot (e0 - 1)).1 < 2 ^ 53 then e0 - 1 else if (quot e0).1 < 2 ^ 53 then e0 else e0 + 1
+  let (q, r, d) := quot e
+  let q' := if 2 * r > d || (2 * r == d && q % 2 == 1) then q + 1 else q
+  (Float.ofNat q').scaleB e
+
+/-- what reading back a `%f` (six decimals) field gives: `strconv.ParseFloat(fmt.Sprintf("%f", x))`,
+both correctly rounded, ties to even -/
+def csv6 (x : Float) : Float :=
+  if x.isNaN || x.isInf then x else
+  let bits : Nat := x.toBits.toNat
+  let neg := bits / 2 ^ 63 % 2 == 1
+  let ef : Nat := bits / 2 ^ 52 % 2 ^ 11
+  let frac : Nat := bits % 2 ^ 52
+  let mant : Nat := if ef == 0 then frac else frac + 2 ^ 52
+  let e : Int := (if ef == 0 then 1 else (ef : Int)) - 1075
+  -- N = round-half-even (mant * 2^e * 10^6)
+  let N : Nat :=
+    if e ≥ 0 then mant * 2 ^ e.toNat * 10 ^ 6
+    else
+      let num := mant * 10 ^ 6
+      let den := 2 ^ (-e).toNat
+      let q := num / den
+      let r := num % den
+      if 2 * r > den || (2 * r == den && q % 2 == 1) then q + 1 else q
+  let y := nearest N (10 ^ 6)
+  if neg then -y else y
+
+def insertStr (a : String) : List String → List String
+  | [] => [a]
+  | b :: r => if a < b then a :: b :: r else b :: insertStr a r
+
+def sortStr (l : List String) : List String := l.foldr insertStr []
+
+def joinOr (sep : String) (l : List String) : String := if l.isEmpty then "-" else sep.intercalate l
+
+/-- `k=v,k=v` or `-` -/
+def parseKVs (s : String) : Option (List (String × String)) :=
+  if s = "-" then some [] else
+  (s.splitOn ",").mapM fun kv =>
+    match kv.splitOn "=" with
+    | [k, v] => if k.isEmpty then none else some (k, v)
+    | _ => none
+
+structure Mon where
+  gname : String
+  m : Monitor String Float
+  bnames : List (Int × String) := []
+
+structure State where
+  free : List (String × St) := []
+  mon : Option Mon := none
+  nconn : Nat := 0
+
+def init : State := {}
+
+/-- where a result set lives -/
+inductive Loc where
+  | free | global | bucket (i : Int)
+
+def locate (s : State) (name : String) : Option Loc :=
+  if s.free.any (·.1 = name) then some .free else
+  match s.mon with
+  | none => none
+  | some mn =>
+    if mn.gname = name then some .global else
+    (mn.bnames.find? (·.2 = name)).map fun p => .bucket p.1
+
+def getSt (s : State) (name : String) : Option St :=
+  match locate s name, s.mon with
+  | some .free, _ => (s.free.find? (·.1 = name)).map (·.2)
+  | some .global, some mn => some mn.m.global
+  | some (.bucket i), some mn => (mn.m.buckets.find? (·.idx = i)).map (·.stats)
+  | _, _ => none
+
+def setSt (s : State) (name : String) (st : St) : State :=
+  match locate s name, s.mon with
+  | some .free, _ => { s with free := s.free.map fun p => if p.1 = name then (name, st) else p }
+  | some .global, some mn => { s with mon := some { mn with m := { mn.m with global := st } } }
+  | some (.bucket i), some mn =>
+    { s with mon := some { mn with m := { mn.m with
+        buckets := mn.m.buckets.map fun b => if b.idx = i then { b with stats := st } else b } } }
+  | _, _ => s
+
+def known (s : State) (name : String) : Bool := (locate s name).isSome
+
+def showFields (l : List Float) : String := "/".intercalate (l.map fun x => showF (csv6 x))
+
+/-- `Stats.String()`, canonical: static fields, then the groups sorted -/
+def showString (st : St) : String :=
+  joinOr "," (st.static.map fun kv => kv.1 ++ "=" ++ kv.2) ++ " " ++
+    joinOr ";" (sortStr (st.vals.map fun kv => showFields kv.2.values))
+
+def showHeader (st : St) : String :=
+  joinOr "," (st.static.map (·.1) ++
+    st.vals.flatMap fun kv => ["_min", "_max", "_avg", "_sum", "_dev"].map (kv.1 ++ ·))
+
+def showValues (st : St) : String :=
+  joinOr "," (st.static.map (·.2)) ++ " " ++
+    joinOr "," (st.vals.flatMap fun kv => kv.2.values.map fun x => showF (csv6 x))
+
+def showAcc (v : Value Float) : String :=
+  toString v.n ++ "/" ++ "/".intercalate ([v.min, v.max, v.sum, v.newM, v.dev].map showF)
+
+def isEnd (name : String) : Bool := name.toLower = "end"
+
+def parseBits (s : String) : Option (List Float) :=
+  if s = "-" then some [] else (s.splitOn ",").mapM parseF
+
+def measure (name : String) (x : Float) (host : Int) : Measure String Float :=
+  { name := name, val := x, host := host }
+
+def step (s : State) (toks : List String) : State × String :=
+  match toks with
+  | ["stats", name, defs, rest] =>
+    match parseKVs defs, parseKVs rest with
+    | some d, some r =>
+      if known s name then (s, "bad-op") else
+      let r' := (sortStr (r.map (·.1))).filterMap fun k => (r.find? (·.1 = k)).map fun p => (k, p.2)
+      ({ s with free := s.free ++ [(name, { static := d ++ r', vals := [] })] }, "ok")
+    | _, _ => (s, "bad-op")
+  | ["mon", name] =>
+    match s.mon, locate s name, getSt s name with
+    | none, some .free, some st =>
+      ({ s with free := s.free.filter (·.1 ≠ name), mon := some { gname := name, m := { global := st } } }, "ok")
+    | _, _, _ => (s, "bad-op")
+  | ["bucket", idx, name, rules] =>
+    match parseInt idx, s.mon, locate s name, getSt s name with
+    | some i, some mn, some .free, some st =>
+      let rs : Option (List (List Nat)) := if rules = "-" then some [] else (rules.splitOn ",").mapM Util.unhex
+      match rs with
+      | none => (s, "bad-op")
+      | some rs =>
+        match rs.mapM parseRule with
+        | none => (s, "err")
+        | some rr =>
+          -- a replaced bucket's result set is still held by the caller
+          let old : List (String × St) :=
+            match mn.bnames.find? (·.1 = i), mn.m.buckets.find? (·.idx = i) with
+            | some p, some b => [(p.2, b.stats)]
+            | _, _ => []
+          ({ s with free := s.free.filter (·.1 ≠ name) ++ old,
+                    mon := some { mn with m := { mn.m with buckets := mn.m.buckets.set i rr st },
+                                          bnames := (i, name) :: mn.bnames.filter (·.1 ≠ i) } }, "ok")
+    | _, _, _, _ => (s, "bad-op")
+  | ["open", n] =>
+    match n.toNat?, s.mon with
+    | some n, some _ => if s.nconn = 0 && n > 0 then ({ s with nconn := n }, "ok") else (s, "bad-op")
+    | _, _ => (s, "bad-op")
+  | ["close"] => if s.nconn > 0 then ({ s with nconn := 0 }, "ok") else (s, "bad-op")
+  | ["send", c, name, bits, host] =>
+    match c.toNat?, parseF bits, parseInt host, s.mon with
+    | some c, some x, some h, some mn =>
+      if c ≥ s.nconn then (s, "bad-op")
+      else if isEnd name then (s, "ok")
+      else ({ s with mon := some { mn with m := mn.m.update (measure name x h) } }, "ok")
+    | _, _, _, _ => (s, "bad-op")
+  | ["burst", name, host, parts, arrived] =>
+    let ps : Option (List (List Float)) := (parts.splitOn ";").mapM parseBits
+    match parseInt host, ps, s.mon, (arrived.dropPrefix? "arrived=").map (·.toString) with
+    | some h, some ps, some mn, some arr =>
+      match parseBits arr with
+      | none => (s, "bad-op")
+      | some xs =>
+        let sent := if isEnd name then [] else ps.flatten
+        if ps.length ≠ s.nconn then (s, "bad-op")
+        else if sortStr (sent.map showF) ≠ sortStr (xs.map showF) then (s, "lost-or-duplicated")
+        else ({ s with mon := some { mn with m := xs.foldl (fun m x => m.update (measure name x h)) mn.m } }, "ok")
+    | _, _, _, _ => (s, "bad-op")
+  | ["mupd", name, bits, host] =>
+    match parseF bits, parseInt host, s.mon with
+    | some x, some h, some mn => ({ s with mon := some { mn with m := mn.m.update (measure name x h) } }, "ok")
+    | _, _, _ => (s, "bad-op")
+  | ["upd", sname, name, bits, host] =>
+    match parseF bits, parseInt host, getSt s sname with
+    | some x, some _, some st => (setSt s sname (st.update name x), "ok")
+    | _, _, _ => (s, "bad-op")
+  | ["collect", sname] =>
+    match getSt s sname with
+    | some st => (setSt s sname (st.readout .collect), "ok")
+    | none => (s, "bad-op")
+  | ["string", sname] =>
+    match getSt s sname with
+    | some st => let st' := st.readout .string; (setSt s sname st', showString st')
+    | none => (s, "bad-op")
+  | ["header", sname] =>
+    match getSt s sname with
+    | some st => let st' := st.readout .header; (setSt s sname st', showHeader st')
+    | none => (s, "bad-op")
+  | ["values", sname] =>
+    match getSt s sname with
+    | some st => let st' := st.readout .values; (setSt s sname st', showValues st')
+    | none => (s, "bad-op")
+  | ["get", idx] =>
+    match parseInt idx, s.mon with
+    | some i, some mn =>
+      let (bs', r) := mn.m.buckets.get i
+      match r, mn.bnames.find? (·.1 = i) with
+      | some _, some p => ({ s with mon := some { mn with m := { mn.m with buckets := bs' } } }, p.2)
+      | _, _ => (s, "nil")
+    | _, _ => (s, "bad-op")
+  | ["avg", name, srcs] =>
+    let names := if srcs = "-" then [] else srcs.splitOn ","
+    match names.mapM (getSt s) with
+    | some sts =>
+      if known s name then (s, "bad-op")
+      else ({ s with free := s.free ++ [(name, averageStats sts)] }, "ok")
+    | none => (s, "bad-op")
+  | ["acc", sname, name] =>
+    match getSt s sname with
+    | some st => (s, match st.value name with | some v => showAcc v | none => "nil")
+    | none => (s, "bad-op")
+  | _ => (s, "bad-op")
+
 end Drv
 
 end C19
